@@ -109,6 +109,8 @@ func (r *Run) substitute(s string) string {
 	})
 }
 
+var hostSplit = regexp.MustCompile(`^/([a-z0-9][a-z0-9-]*)/?(.*)$`)
+
 var keyFromTarget = regexp.MustCompile(`^/([^/?]+)/([^?]*)`)
 
 func (r *Run) execRaw(ci, oi int, op *Op) {
@@ -129,11 +131,21 @@ func (r *Run) execRaw(ci, oi int, op *Op) {
 		hdr = append(hdr, [2]string{h[0], r.substitute(v)})
 	}
 	tgt := r.substitute(rq.Target)
-	req := &simnet.Request{Method: rq.Method, Target: tgt, Host: rq.Host, Headers: hdr, Body: body, FragSeed: r.Plan.Seed + int64(ci*1000+oi)}
+	host := rq.Host
+	if r.Plan.Config.HostBucket && host == "" {
+		// virtual-host style: the first path segment travels in the Host header
+		if m := hostSplit.FindStringSubmatch(tgt); m != nil {
+			host, tgt = m[1]+".sim", "/"+m[2]
+		}
+	}
+	req := &simnet.Request{Method: rq.Method, Target: tgt, Host: host, Headers: hdr, Body: body, FragSeed: r.Plan.Seed + int64(ci*1000+oi)}
 	resp := r.send(req, op.Faults, r.frag(op))
 	r.stats.Routes[rq.Class]++
 	r.logf("c%d#%d raw %s %s [%s] -> %s", ci, oi, rq.Method, trunc(tgt, 120), rq.Class, resp.String())
 	r.wellFormed(resp, rq.Method, rq.Class)
+	if resp.OK() && rq.Method != "GET" && rq.Method != "HEAD" {
+		r.stats.Mutations++
+	}
 	// learn ids for later placeholders
 	if id := resp.Header.Get("x-amz-version-id"); id != "" && id != "null" {
 		if m := keyFromTarget.FindStringSubmatch(rq.Target); m != nil {
@@ -199,7 +211,10 @@ func (r *Run) afterRaw() {
 		}
 		ls := do(b, &simnet.Request{Method: "GET", Target: "/" + b})
 		var x xListResult
-		if ls.Status != 200 || xml.Unmarshal(ls.Body, &x) != nil {
+		if r.refusedByConfig(ls) {
+			ls = do(b, &simnet.Request{Method: "GET", Target: "/" + b}) // refused by configuration: not judged
+			x.Contents = append(x.Contents, xContent{Key: key, ETag: etagOf(ent)})
+		} else if ls.Status != 200 || xml.Unmarshal(ls.Body, &x) != nil {
 			r.fail("canary", "a correct ListObjects after the hostile traffic fails "+r.bctx(), "200", ls.String()+" "+ls.Msg)
 		}
 		found := false
